@@ -15,6 +15,7 @@ pub mod c05;
 pub mod c06;
 pub mod c07;
 pub mod c08;
+pub mod c09;
 pub mod common;
 
 impl Checker for Box<dyn Checker> {
